@@ -86,14 +86,49 @@ func lits15() string {
 	return sb.String()
 }
 
+// model15: a file without generator literals whose declarations carry every kind of comment; it is
+// always present and sorts before lits.go, so only a companion can put a literal-bearing file in front of it
+const model15 = `package src
+
+import . "github.com/goghcrow/go-co"
+
+// Model is a plain type next to a generator
+type Model struct {
+	// ID documents a field
+	ID   int    // trailing field comment
+	Name string // the name
+}
+
+// kinds
+const (
+	KindA = iota // first kind
+	KindB        // second kind
+)
+
+var (
+	// Default documents a spec
+	Default = Model{ID: 1} // trailing spec comment
+)
+
+// Models yields the ids
+func Models(ms []Model) Iter[int] {
+	// a comment inside a generator declaration
+	for _, m := range ms {
+		Yield(m.ID) // trailing
+	}
+	return nil
+}
+`
+
 var companions15 = map[string][2]string{
+	"litbefore": {"a_lit.go", "package src\n\nimport . \"github.com/goghcrow/go-co\"\n\n// LitBefore has a generator literal with a comment\nfunc LitBefore() func() Iter[int] {\n\t// before the literal\n\treturn func() Iter[int] {\n\t\tYield(1) // one\n\t\treturn nil\n\t}\n}\n"},
 	"before": {"a_before.go", "package src\n\nimport . \"github.com/goghcrow/go-co\"\n\nfunc Before() Iter[int] {\n\tfor _, x := range []int{1} {\n\t\tYield(x)\n\t}\n\treturn nil\n}\n"},
 	"after":  {"z_after.go", "package src\n\nimport . \"github.com/goghcrow/go-co\"\n\nfunc After() Iter[int] {\n\tfor _, x := range []int{1} {\n\t\tfor _, y := range []int{2} {\n\t\t\tYield(x + y)\n\t\t}\n\t}\n\treturn nil\n}\n"},
 	"plain":  {"plain.go", "package src\n\nfunc Plain() int { return 1 }\n"},
 	"subpkg": {"sub/sub.go", "package sub\n\nimport . \"github.com/goghcrow/go-co\"\n\nfunc Sub() Iter[int] {\n\tfor _, x := range []int{1} {\n\t\tYield(x)\n\t}\n\treturn nil\n}\n"},
 	"test":   {"target_test.go", "package src\n\nimport (\n\t\"testing\"\n\n\t. \"github.com/goghcrow/go-co\"\n)\n\nfunc TestT(t *testing.T) {\n\tg := func() Iter[int] {\n\t\tfor _, x := range []int{1} {\n\t\t\tYield(x)\n\t\t}\n\t\treturn nil\n\t}\n\tfor v := range g() {\n\t\t_ = v\n\t}\n}\n"},
 }
-var compNames15 = []string{"before", "after", "plain", "subpkg", "test"}
+var compNames15 = []string{"before", "after", "plain", "subpkg", "test", "litbefore"}
 var states15 = []string{"clean", "previous", "stale-tmp", "ghost"}
 
 type cfg15 struct {
@@ -132,7 +167,8 @@ func run15(c cfg15, drv string) res15 {
 	os.MkdirAll(src, 0o755)
 	os.WriteFile(filepath.Join(src, "target.go"), []byte(target15), 0o644)
 	os.WriteFile(filepath.Join(src, "lits.go"), []byte(lits15()), 0o644)
-	expect := map[string]bool{"target.go": true, "lits.go": true}
+	os.WriteFile(filepath.Join(src, "k_model.go"), []byte(model15), 0o644)
+	expect := map[string]bool{"target.go": true, "lits.go": true, "k_model.go": true}
 	env := goEnv
 	for _, n := range c.comps {
 		f := companions15[n]
@@ -175,7 +211,8 @@ func run15(c cfg15, drv string) res15 {
 		return r
 	}
 	lb, _ := os.ReadFile(filepath.Join(dst, "lits.go"))
-	r.target = string(tb) + "\n// ==== lits.go\n" + string(lb)
+	mb, _ := os.ReadFile(filepath.Join(dst, "k_model.go"))
+	r.target = string(tb) + "\n// ==== lits.go\n" + string(lb) + "\n// ==== lits.go\n" + string(mb)
 	filepath.Walk(dst, func(p string, info os.FileInfo, err error) error {
 		if err == nil && !info.IsDir() {
 			rel, _ := filepath.Rel(dst, p)
@@ -193,7 +230,8 @@ func run15(c cfg15, drv string) res15 {
 	}
 	tb2, _ := os.ReadFile(filepath.Join(dst, "target.go"))
 	lb2, _ := os.ReadFile(filepath.Join(dst, "lits.go"))
-	r.second = string(tb2) + "\n// ==== lits.go\n" + string(lb2)
+	mb2, _ := os.ReadFile(filepath.Join(dst, "k_model.go"))
+	r.second = string(tb2) + "\n// ==== lits.go\n" + string(lb2) + "\n// ==== lits.go\n" + string(mb2)
 	return r
 }
 
@@ -290,7 +328,7 @@ func C15(tier string) *core.Report {
 	if hits := rangeOverMap(filepath.Join(core.Repo(), "rewriter")); len(hits) > 0 {
 		r.Set("range_over_map_in_rewriter", hits)
 	}
-	r.Set("rule", "a fixed target file (sequential and nested ranges, generator literals with comments, delegation) x every subset (quick: none, each single, all) of companions {API file sorting before, after, plain file, second package, test file} x pre-existing state {clean, previous output, stale fixed-name intermediate directory of an aborted run, foreign file in the output directory}; each configuration compiled twice by the real rewriter.Compile from a non-test binary; oracle: bytes of the target's generated file equal across all configurations and runs, no file without source in the output, iterator temporaries pairwise distinct")
+	r.Set("rule", "a fixed target file (sequential and nested ranges, generator literals with comments, delegation) plus a literal-free file with field / spec / line comments x every subset (quick: none, each single, all) of companions {API file sorting before, after, plain file, second package, test file, file with a generator literal sorting first} x pre-existing state {clean, previous output, stale fixed-name intermediate directory of an aborted run, foreign file in the output directory}; each configuration compiled twice by the real rewriter.Compile from a non-test binary; oracle: bytes of the target's generated file equal across all configurations and runs, no file without source in the output, iterator temporaries pairwise distinct")
 	r.Assume("run-to-run nondeterminism from Go map iteration cannot be driven by enumeration; it is covered by the repeated runs (sampling) and reported, not claimed")
 	return r
 }
